@@ -1091,6 +1091,48 @@ PROJ_TIME = [
 ]
 
 
+# projections whose fixed argument is not a literal (a variable, an expression, a negative number, a parameter of the
+# enclosing call), completed by an adverb or by @ instead of a direct call; expected values by substitution
+PROJ_ADVERB = [
+    (['f::{x+y}', 'a::10', "f(a;)'[1 2 3]"], [11, 12, 13]),
+    (['f::{x+y}', "f(-1;)'[1 2 3]"], [0, 1, 2]),
+    (['f::{x+y}', 'a::10', 'f(;a*2)@5'], 25),
+    (['f::{x+y}', 'a::10', 'g::f(a;)', 'g@5'], 15),
+    (['f::{x+y}', "{f(x;)'y}(10;[1 2 3])"], [11, 12, 13]),
+    (['f::{x-y}', 'a::10', "[1 2 3]f(a;)'[1 2 3]"], None),          # a monad used as Each-2 verb: must raise or be a projection; not judged
+    (['f::{x,y}', 'a::10', "f(a;)'[1 2]"], [[10, 1], [10, 2]]),
+    (['f::{x-y}', 'a::10', 'f(a;)/[1 2 3]'], None),
+    (['t::{x,y,z}', 'a::10', "t(a;;3)'[1 2]"], [[10, 1, 3], [10, 2, 3]]),
+    (['f::{x+y}', 'a::10', '{x<3}{f(1;x)}:~0'], 3),
+]
+
+
+def work_projadverb(chunk):
+    st = Stats()
+    for progs, want in chunk:
+        if want is None:
+            continue
+        k = KlongInterpreter()
+
+        def seq():
+            r = None
+            for p in progs:
+                r = k(p)
+            return r
+        obs = outcome(seq)
+        st.d['evals'] += len(progs)
+        st.d['calls'] += 1
+        st.d['states'] += 1
+        st.form('projection-completed-by-adverb')
+        observed = show_outcome(obs)
+        st.d['outcomes'].add(hash(observed))
+        exp_v = cn(np.array(want)) if isinstance(want, list) else I(want)
+        if obs != ('ok', exp_v):
+            st.violation(';'.join(progs), observed, 'ok:' + show(exp_v), dict(part='h', programs=progs), snippet_for(progs),
+                         'projection-with-non-literal-argument-completed-by-adverb')
+    return st.d
+
+
 def work_projtime(chunk):
     st = Stats()
     for progs, want in chunk:
@@ -1226,10 +1268,13 @@ def run(cfg):
     part_b, part_d, part_e, part_f = work_proj(items_b), work_cond(items_d), work_rec(items_e), work_projtime(items_f)
     items_g = list(PARAM_CASES)
     part_g = work_params(items_g)
+    items_h = [c for c in PROJ_ADVERB if c[1] is not None]
+    part_h = work_projadverb(items_h)
     t_inline = round(time.time() - t0, 1)
     for name, items, part, wall in (('a', items_a, pooled['a'], t_pool), ('b', items_b, part_b, t_inline),
                                     ('c', items_c, pooled['c'], t_pool), ('d', items_d, part_d, t_inline),
-                                    ('e', items_e, part_e, t_inline), ('f', items_f, part_f, t_inline), ('g', items_g, part_g, t_inline)):
+                                    ('e', items_e, part_e, t_inline), ('f', items_f, part_f, t_inline), ('g', items_g, part_g, t_inline),
+                                    ('h', items_h, part_h, t_inline)):
         parts[name] = dict(items=len(items), wall_s_shared=wall, evals=part.get('evals', 0),
                            calls=part.get('calls', 0),
                            states=part.get('states', 0), violations=len(part.get('violations', [])),
@@ -1272,6 +1317,7 @@ def run(cfg):
                  % (cfg.pick('bodies <= 1 node at nesting depth 1, 2, 3; bodies with 2 nodes at depth 3 with 1 tuple',
                              'every body at nesting depth 1, 2, 3'),
                     len(cfg.pick(FAULT_TUPLES_Q, FAULT_TUPLES_T)), len(BATTERY)),
+            'h': '%d programs in which a projection with a non-literal fixed argument is completed by an adverb or @' % len(items_h),
             'g': '%d programs that assign to x, y, z inside functions while globals of those names exist' % len(PARAM_CASES),
             'f': '%d programs in which the fixed argument of a projection is rebound / has a side effect between the steps' % len(PROJ_TIME),
             'e': '%d functions that declare locals and recurse through .f x depths 0..%d, called directly and from another '
